@@ -161,6 +161,14 @@ func checkC18Stub(sc *Scenario, h *History, x *c18X) []Violation {
 				}
 			}
 		}
+		if d.StaleSet {
+			if d.StaleErr == "" {
+				v("C18.close-twice", "transaction %d: closing the previous message's writer again, while this message was being written, returned nil", ti)
+			}
+			if d.StaleRaw != 0 {
+				v("C18.close-twice", "transaction %d: closing the previous message's writer again put %d octets on the wire in the middle of this message", ti, d.StaleRaw)
+			}
+		}
 		if tx.NoopOp < len(res) && res[tx.NoopOp].Err != "" {
 			v("C18.desync", "transaction %d: the NOOP after it failed: %s", ti, res[tx.NoopOp].Err)
 		}
@@ -250,6 +258,12 @@ func genC18(t *Tape, tier string) *Scenario {
 			dop.Gap = 6 * time.Minute
 			sc.Srv.ReadTO, sc.Srv.WriteTO = 0, 0
 			tx.Slow, tx.SlowBody = true, true
+		}
+		if m > 0 && dop.Parts == nil && t.Chance(1, 4) {
+			// while this message is being written, the writer of the one before is closed once
+			// more (a late clean-up): an error for that caller, nothing for this message
+			dop.Parts = []int{4, len(dop.Body)}
+			dop.StaleClose = true
 		}
 		cl.Ops = append(cl.Ops, dop)
 		tx.NoopOp = len(cl.Ops)
@@ -449,6 +463,14 @@ func classifyC18(sc *Scenario, h *History, st *Stats) string {
 	if x.Fault > 0 {
 		st.Faults["conversation_broken_off_"+[]string{"", "by_Server.Close", "by_backend_panic", "by_failing_reply_write", "by_blocked_reply_write"}[x.Fault]]++
 	}
+	if c := h.Conns[0].Client; c != nil {
+		for _, r := range c.Results {
+			if r.StaleSet {
+				st.Probes["previous_writer_closed_again_inside_the_next_message"]++
+				break
+			}
+		}
+	}
 	var key []string
 	for _, tx := range x.Txns {
 		if len(tx.Rcpts) > len(tx.Accepted) {
@@ -474,7 +496,7 @@ func classifyC18(sc *Scenario, h *History, st *Stats) string {
 func init() {
 	register(&Property{
 		ID: "C18", Level: "exploration",
-		Rule:     "real LMTP smtp.Client against the real LMTP smtp.Server with a per-recipient backend: 1-3 consecutive transactions (systematic) x 1-3 accepted recipients each, some extra recipients refused at RCPT, per-recipient verdicts {250, 550, 452} set before/after reading/after a park, LMTPData with a callback or Data without (systematic), a NOOP after every transaction. Every case is non-trivial; distinct by the per-transaction (recipient count, verdict vector, API) list. Replies re-cut by the network; a per-recipient status or the message itself later than CommandTimeout; the same broken-off-exchange stratum as C16 with a per-recipient false-success oracle.",
+		Rule:     "real LMTP smtp.Client against the real LMTP smtp.Server with a per-recipient backend: 1-3 consecutive transactions (systematic) x 1-3 accepted recipients each, some extra recipients refused at RCPT, per-recipient verdicts {250, 550, 452} set before/after reading/after a park, LMTPData with a callback or Data without (systematic), a NOOP after every transaction. Every case is non-trivial; distinct by the per-transaction (recipient count, verdict vector, API) list. Replies re-cut by the network; a per-recipient status or the message itself later than CommandTimeout; the same broken-off-exchange stratum as C16 with a per-recipient false-success oracle. In a quarter of the later transactions the previous message's writer is closed once more after this message's first Write: an error for that caller, no octet on the wire.",
 		Gen:      genC18,
 		Check:    checkC18,
 		Classify: classifyC18,
@@ -496,7 +518,7 @@ func init() {
 		Real:        []string{"smtp.Client (NewClientLMTP, Mail, Rcpt, LMTPData, Data, dataCloser.Close, Noop, Quit)", "smtp.Server in LMTP mode, handleDataLMTP, statusCollector", "net/textproto"},
 		Stub:        []string{"net.Listener (SimListener)", "net.Conn (SimConn)", "Backend/LMTPSession (SimBackend)", "in a fifth of the seeded runs the peer is a scripted LMTP server instead of smtp.Server (it can refuse DATA after accepting recipients, which the real server never does)", "clock (synctest): a Close that waits for replies that never come costs 12 fake minutes and is detected as such"},
 		Assumptions: []string{"'Close returns once exactly those replies have been read' is judged as: within one fake minute, and the following NOOP gets its own reply"},
-		Required:    []string{"second_or_later_transaction", "recipient_refused_after_DATA", "recipient_refused_at_RCPT", "per_recipient_reply_later_than_CommandTimeout", "message_produced_slower_than_CommandTimeout", "conversation_broken_off_by_Server.Close", "conversation_broken_off_by_backend_panic", "conversation_broken_off_by_failing_reply_write", "conversation_broken_off_by_blocked_reply_write", "multi_line_per_recipient_reply", "DATA_refused_once_then_accepted_in_the_same_transaction", "DATA_refused_after_recipients_were_accepted", "next_Mail_without_Reset_after_refused_DATA"},
+		Required:    []string{"second_or_later_transaction", "recipient_refused_after_DATA", "recipient_refused_at_RCPT", "per_recipient_reply_later_than_CommandTimeout", "message_produced_slower_than_CommandTimeout", "conversation_broken_off_by_Server.Close", "conversation_broken_off_by_backend_panic", "conversation_broken_off_by_failing_reply_write", "conversation_broken_off_by_blocked_reply_write", "multi_line_per_recipient_reply", "DATA_refused_once_then_accepted_in_the_same_transaction", "DATA_refused_after_recipients_were_accepted", "next_Mail_without_Reset_after_refused_DATA", "previous_writer_closed_again_inside_the_next_message"},
 		QuickRuns:   120000, ThoroughRuns: 2000000,
 	})
 }
